@@ -948,6 +948,8 @@ Qed.
 (* (here the two spaces after "a\n") is accepted and counted as a line although it contains no LF.    *)
 (* Each such preamble puts the line counter one further ahead of the physical line number.           *)
 
+Definition ex_main_hdr : bytes := B "#diffx: version=1.0" ++ [lf].
+
 Definition count_lf (d : bytes) : nat := List.length (filter (fun b => byte_eqb b lf) d).
 
 Definition lf_witness : bytes :=
